@@ -29,6 +29,7 @@ type LoopSpec struct {
 	Ordinal int
 	Tag     string
 	Invs    []*Clause
+	Assumed []*Clause // facts about the environment of the loop (ownership of channels, ...): assumed at the loop head, never proved, listed in the evidence
 }
 
 type LetDef struct {
@@ -40,40 +41,40 @@ type LetDef struct {
 type Param struct{ Name, Type string }
 
 type FuncContract struct {
-	Key      string // pkgpath|Recv.Name  or pkgpath|Name
-	PkgName  string
-	Recv     string // receiver type name without * and package
-	RecvPtr  bool
-	Name     string
-	Params   []Param // including receiver first (if any)
-	Results  []Param
-	Props    []string
-	Requires []*Clause
-	ObjInvs  []*Clause // object invariants over private state: assumed at entry (also at call sites, unchecked there)
-	Defines  []*Clause // definitional axioms of spec functions local to this contract (assumed at entry)
-	Ensures  []*Clause
-	Lets     []LetDef
-	Modifies []Expr
-	ModSrc   []string
-	ModAll   bool
-	Loops    map[int]*LoopSpec
-	Branches map[string][]*Clause
-	Extern   bool
-	Iface    bool
-	Pure     bool
-	Logged   bool
-	Trusted  bool // body not verified (assumed), listed in evidence
-	NoInline bool
-	Nonblock bool
-	Fresh    bool // result is freshly allocated
-	File     string
-	Line     int
-	Header   string
-	MayPanic bool
-	CallsArg bool // the function's whole effect is to call its last argument (a func()) once
-	Bounded  []BoundedDef
+	Key       string // pkgpath|Recv.Name  or pkgpath|Name
+	PkgName   string
+	Recv      string // receiver type name without * and package
+	RecvPtr   bool
+	Name      string
+	Params    []Param // including receiver first (if any)
+	Results   []Param
+	Props     []string
+	Requires  []*Clause
+	ObjInvs   []*Clause // object invariants over private state: assumed at entry (also at call sites, unchecked there)
+	Defines   []*Clause // definitional axioms of spec functions local to this contract (assumed at entry)
+	Ensures   []*Clause
+	Lets      []LetDef
+	Modifies  []Expr
+	ModSrc    []string
+	ModAll    bool
+	Loops     map[int]*LoopSpec
+	Branches  map[string][]*Clause
+	Extern    bool
+	Iface     bool
+	Pure      bool
+	Logged    bool
+	Trusted   bool // body not verified (assumed), listed in evidence
+	NoInline  bool
+	Nonblock  bool
+	Fresh     bool // result is freshly allocated
+	File      string
+	Line      int
+	Header    string
+	MayPanic  bool
+	CallsArg  bool // the function's whole effect is to call its last argument (a func()) once
+	Bounded   []BoundedDef
 	GhostSets []GhostSet
-	NoSafety string // reason why panic-freedom obligations are not generated for this function
+	NoSafety  string // reason why panic-freedom obligations are not generated for this function
 }
 
 type GhostSet struct {
@@ -86,6 +87,7 @@ type GhostSet struct {
 type BoundedDef struct {
 	Test  string
 	Bound string
+	Props []string // properties of the bounded clause it decides (empty: the function's)
 }
 
 type MacroDef struct {
@@ -112,19 +114,20 @@ type StructInv struct {
 }
 
 type Specs struct {
-	Funcs   map[string]*FuncContract // by key "pkgname.Recv.Name" / "pkgname.Name"
-	Macros  map[string]*MacroDef     // "Name" or "Recv.Name"
-	Ghosts  map[string]*GhostField   // "Type.name"
-	SMT     []string                 // raw prelude lines
-	Axioms  []AxiomDef
-	Erase   []string          // patterns of erased callees
-	Pure    []string          // patterns of callees assumed pure with unconstrained result
-	SMTFuns map[string]string // function symbol -> result sort
-	Invs    []*StructInv
-	Files   []string
-	PropsOf map[string][]string
-	NonNil  []string // package-level variables assumed non-nil (library sentinels)
-	Guarded map[string]GuardDef
+	Funcs    map[string]*FuncContract // by key "pkgname.Recv.Name" / "pkgname.Name"
+	Macros   map[string]*MacroDef     // "Name" or "Recv.Name"
+	Ghosts   map[string]*GhostField   // "Type.name"
+	SMT      []string                 // raw prelude lines
+	Axioms   []AxiomDef
+	Erase    []string          // patterns of erased callees
+	Pure     []string          // patterns of callees assumed pure with unconstrained result
+	SMTFuns  map[string]string // function symbol -> result sort
+	Invs     []*StructInv
+	Files    []string
+	PropsOf  map[string][]string
+	NonNil   []string // package-level variables assumed non-nil (library sentinels)
+	Guarded  map[string]GuardDef
+	ChanInvs map[string]*MacroDef
 }
 
 // GuardDef: accesses to a package-level variable are obligations "the mutex is held".
@@ -302,7 +305,7 @@ func (sp *Specs) LoadFile(path, pkgName string) error {
 			cur.Fresh = true
 		case "may_panic":
 			cur.MayPanic = true
-		case "requires", "ensures", "invariant", "assume", "define", "objinv":
+		case "requires", "ensures", "invariant", "assume", "define", "objinv", "assumed_invariant":
 			if cur == nil {
 				return fail("%s outside a function contract", word)
 			}
@@ -338,6 +341,11 @@ func (sp *Specs) LoadFile(path, pkgName string) error {
 			}
 			c.E = e
 			switch {
+			case word == "assumed_invariant":
+				if curLoop == nil {
+					return fail("assumed_invariant outside a loop block")
+				}
+				curLoop.Assumed = append(curLoop.Assumed, c)
 			case word == "invariant":
 				if curLoop == nil {
 					return fail("invariant outside a loop block")
@@ -360,6 +368,12 @@ func (sp *Specs) LoadFile(path, pkgName string) error {
 			}
 			f := strings.SplitN(rest, " ", 2)
 			bd := BoundedDef{Test: f[0]}
+			for i := len(cur.Ensures) - 1; i >= 0; i-- {
+				if cur.Ensures[i].Bounded {
+					bd.Props = cur.Ensures[i].Props
+					break
+				}
+			}
 			if len(f) == 2 {
 				bd.Bound = strings.Trim(strings.TrimSpace(f[1]), `"`)
 			}
@@ -466,6 +480,24 @@ func (sp *Specs) LoadFile(path, pkgName string) error {
 			cur = nil
 		case "erase":
 			sp.Erase = append(sp.Erase, splitList(rest)...)
+			cur = nil
+		case "chan_invariant":
+			// chan_invariant pkg.Type.field(v T) := pred(v): every value sent on the channel stored in
+			// that field satisfies pred (obligation at sends, assumption at receives)
+			md, err := parseMacro(rest)
+			if err != nil {
+				return fail("%v", err)
+			}
+			md.File = path
+			md.Pkg = pkgName
+			if sp.ChanInvs == nil {
+				sp.ChanInvs = map[string]*MacroDef{}
+			}
+			key := md.Name
+			if i := strings.Index(rest, "("); i > 0 {
+				key = strings.TrimSpace(rest[:i])
+			}
+			sp.ChanInvs[key] = md
 			cur = nil
 		case "guarded_by":
 			// guarded_by lock: a, b   [; C19]
